@@ -181,7 +181,8 @@ def run(case: Dict[str, Any]) -> Dict[str, Any]:
                 seen_kw = True
             s = f"p{i}"
             if p["dep"]:
-                s += (": str" if p["an"] == "T" else (": Any" if p["an"] == "any" else "")) + " = TaskiqDepends(DEP)"
+                # an annotated dependency parameter that the caller binds explicitly is converted like any other parameter
+                s += (f": TYPES[{p['ty']!r}]" if p["an"] == "T" else (": Any" if p["an"] == "any" else "")) + " = TaskiqDepends(DEP)"
             else:
                 if p["an"] == "T":
                     s += f": TYPES[{p['ty']!r}]"
@@ -193,6 +194,15 @@ def run(case: Dict[str, Any]) -> Dict[str, Any]:
         src = f"async def fn({', '.join(params)}):\n    GOT.update(locals())\n    return 1\n"
         glb = {"TYPES": TYPES, "Any": Any, "TaskiqDepends": TaskiqDepends, "DEP": dep_value, "GOT": got, "__name__": __name__}
         exec(src, glb)  # noqa: S102
+        if case.get("seed", 0) % 3 == 1:
+            # an ordinary decorator around the task function (functools.wraps): signature and type hints are the wrapped ones
+            import functools
+            inner_fn = glb["fn"]
+
+            @functools.wraps(inner_fn)
+            async def decorated(*a: Any, **k: Any) -> Any:
+                return await inner_fn(*a, **k)
+            glb["fn"] = decorated
         receiver_early = None
         if case.get("late"):
             # the worker exists before the task is registered (dynamically defined task / in-memory broker order)
@@ -247,7 +257,7 @@ def run(case: Dict[str, Any]) -> Dict[str, Any]:
             r = got[name]
             convertible = False
             eq_conv = False
-            if p["an"] == "T" and not p["dep"] and prepared is not None:
+            if p["an"] == "T" and prepared is not None:
                 try:
                     conv = pydantic.TypeAdapter(TYPES[p["ty"]]).validate_python(prepared)
                     convertible = True
